@@ -26,11 +26,11 @@ import (
 
 type c17Case struct {
 	TimeoutMs    int     `json:"timeout_ms"`
-	PingDiv      int     `json:"ping_div"`       // client ping = timeout / PingDiv (>= 4)
+	PingDiv      int     `json:"ping_div"`           // client ping = timeout / PingDiv (>= 4)
 	PingPct      int     `json:"ping_pct,omitempty"` // > 0: client ping = timeout * PingPct / 100 instead (30..45: still below half the timeout)
-	ServerPingMs int     `json:"server_ping_ms"` // -1 = off (0 would mean the library default of 5 s)
-	Scenario     string  `json:"scenario"`       // long_call | idle_then_call | stream | mixed | blackhole_pending | blackhole_idle
-	Factor       float64 `json:"factor"`         // duration as a multiple of the timeout
+	ServerPingMs int     `json:"server_ping_ms"`     // -1 = off (0 would mean the library default of 5 s)
+	Scenario     string  `json:"scenario"`           // long_call | idle_then_call | stream | mixed | blackhole_pending | blackhole_idle
+	Factor       float64 `json:"factor"`             // duration as a multiple of the timeout
 	Scale        int     `json:"scale,omitempty"`
 }
 
